@@ -95,8 +95,17 @@ def per_step(case):
         elif l.startswith("EV "):
             res[-1][1].append(l[3:])
         elif l.startswith("OUT "):
-            res[-1][2].append(l[4:])
+            if not l.startswith("OUT val "):       # per-run validation of the recorded answers (model side only)
+                res[-1][2].append(l[4:])
     return res
+
+
+def val_line(case):
+    """the `val sat_ok=.. sat_bad=.. unsat=.. unsat_ok=.. unsat_bad=..` line of a driver case, as a dict"""
+    for o in case.outs:
+        if o.startswith("val "):
+            return dict((k, int(v)) for k, v in (x.split("=") for x in o.split()[1:]))
+    return None
 
 
 def verdict_of(spec_case):
@@ -250,7 +259,8 @@ def canon_dyn_out(line):
 
 def dynamic_check(ctx, invalid, total, rule, modelled=True):
     prop_file = os.path.join(COQ, "theories", "Properties", "%s.v" % ctx.prop)
-    proofs_ok = check_proofs(ctx) if os.path.exists(prop_file) else True
+    extra = tuple(x for x in ("C08dummy", "C08att") if os.path.exists(os.path.join(COQ, "theories", "Properties", x + ".v")))
+    proofs_ok = check_proofs(ctx, extra_props=extra) if os.path.exists(prop_file) else True
     if not os.path.exists(prop_file):
         ctx.notes.append("Properties/%s.v not written yet" % ctx.prop)
     h = build_harness(ctx)
@@ -361,6 +371,17 @@ def dynamic_check(ctx, invalid, total, rule, modelled=True):
                     corr = corr or (c, why)
                 else:
                     stats["compared_with_model"][kind] = stats["compared_with_model"].get(kind, 0) + 1
+                vl = val_line(m)
+                if vl is not None:
+                    stats["sat_answers_validated"] = stats.get("sat_answers_validated", 0) + vl["sat_ok"]
+                    stats["unsat_answers_seen"] = stats.get("unsat_answers_seen", 0) + vl["unsat"]
+                    stats["unsat_answers_confirmed_by_verified_dpll"] = stats.get("unsat_answers_confirmed_by_verified_dpll", 0) + vl.get("unsat_ok", 0)
+                    if vl.get("unsat_bad", 0) > 0:
+                        ctx.violation("%s: a recorded UNSAT answer is wrong: the verified reference solver finds a model (hypothesis valid_oracle of the C08 theorems fails on this run)" % c.kind,
+                                      c.text(), found_input=True, key="badunsat")
+                    if vl["sat_bad"] > 0:
+                        ctx.violation("%s: a recorded SAT model does not satisfy the clauses and assumptions of its call (hypothesis valid_oracle of the C08 theorems fails on this run)" % c.kind,
+                                      c.text(), found_input=True, key="badsat")
     # ---- report failing histories, minimised
     runner = Runner(ctx, h, d)
     seen_classes = {}
